@@ -133,7 +133,7 @@ func (e *renv) attemptAckV2(s *sinks, m v2msg, label string) string {
 		acksHex[i] = Hex(a)
 	}
 	in := M{"f": "relay.ackV2", "mut": label, "pkt": pktV2JSON(p), "acks": acksHex, "proofEmpty": len(m.proof) == 0, "env": envFacts(c, m.signer)}
-	_, cpID, cpFound := v2Common(c, p.SourceClient, m, in)
+	cf, cpID, cpFound := v2Common(c, p.SourceClient, m, in)
 	commitment := k.ChannelKeeperV2.GetPacketCommitment(ctx, p.SourceClient, p.Sequence)
 	in["commitment"] = Hex(commitment)
 	in["proof"] = proofFacts(cp, m.height, m.truth)
@@ -156,6 +156,9 @@ func (e *renv) attemptAckV2(s *sinks, m v2msg, label string) string {
 		}
 		if !cpFound || cpID != p.DestinationClient {
 			s.viol("C06", "ack-counterparty", "v2 acknowledgement processed although the source client's registered counterparty is not the packet's destination client", in, M{"counterparty": cpID, "mut": label})
+		}
+		if cf["active"] != true || cf["cons"] != true {
+			s.viol("C06", "ack-client", "v2 acknowledgement processed through a client that is not Active or has no consensus state at the proof height", in, M{"mut": label})
 		}
 		if len(e.ackCalls) != len(p.Payloads) {
 			s.viol("C06", "ack-callback-count", "OnAcknowledgementPacket not invoked once per payload for a processed v2 acknowledgement", in, M{"calls": len(e.ackCalls)})
